@@ -3,6 +3,7 @@ CONSTANTS
   MaxLen = 3
   BlankStops = TRUE
   EndEmptyRaises = TRUE
+  GluedKeepsWater = TRUE
   DropWaterChoices = {FALSE, TRUE}
   Emit = FALSE
 INVARIANT AllIngested
